@@ -317,6 +317,7 @@ func (ex *Exec) runPath(h *Harness, prefix []int32) (reason string) {
 	ex.panicsOK = 0
 	ex.res = pathResult{siteReach: map[string]int{}, siteSym: map[string]int{}, unsupported: map[string]int{}, funcs: map[string]int{}, stubs: map[string]int{}}
 	ex.pending = nil
+	ex.snaps = nil
 	defer func() {
 		r := recover()
 		if r != nil {
